@@ -32,6 +32,7 @@ import (
 	"github.com/AdguardTeam/AdGuardDNS/verif/kernel"
 	"github.com/AdguardTeam/AdGuardDNS/verif/model"
 	"github.com/c2h5oh/datasize"
+	"github.com/miekg/dns"
 )
 
 const respSzEst = 1 * datasize.KB
@@ -864,6 +865,16 @@ func (w *world) check(k key, inv, ret int, p *agd.Profile, d *agd.Device, err er
 }
 
 func (w *world) doLookup(db *profiledb.Default, k key) (p *agd.Profile, d *agd.Device, err error) {
+	defer func() {
+		if err == nil && p != nil && p.Access != nil {
+			// What the server does next with a request it has attributed:
+			// ask the profile's access settings about it.  (They must be the
+			// same settings afterwards: the database stores them again.)
+			q := (&dns.Msg{}).SetQuestion("block.test.", dns.TypeA)
+			_ = p.Access.IsBlocked(q, netip.MustParseAddrPort("9.9.9.9:5353"), nil)
+		}
+	}()
+
 	ctx := context.Background()
 	switch k.kind {
 	case "dev":
